@@ -5,10 +5,10 @@ import (
 	"reflect"
 
 	"github.com/go-kid/ioc/container/support"
-	p1model "verifharness/world/p1/model"
-	p2model "verifharness/world/p2/model"
 	"verifharness/core"
 	"verifharness/world"
+	p1model "verifharness/world/p1/model"
+	p2model "verifharness/world/p2/model"
 )
 
 // C07 Injection by name selects exactly the named component.
@@ -261,7 +261,9 @@ func (p c07) preset(c *core.Ctx) {
 	r.Go()
 	c.Count("starts", 1)
 	c.Count("preset_cases", 1)
-	detail := func() map[string]any { return failDetail(g.Sc, r, map[string]any{"transient_dependency_failure": transient}) }
+	detail := func() map[string]any {
+		return failDetail(g.Sc, r, map[string]any{"transient_dependency_failure": transient})
+	}
 	if abnormal(r.Outcome()) {
 		c.Fail("", "start with pre-set optional fields: "+r.OutcomeDetail(), detail())
 		return
